@@ -27,11 +27,12 @@ theorem window_refines_ledger (fix : Bool) (t0 : Nat) (ops : List TOp) (h0 : 0 <
     (k : Key) (Iv now : Nat) (hnow : lastT t0 ops.reverse ≤ now) (hIv : Iv ≤ 10000) :
     obsWindow (run fix t0 ops) k Iv now = ledWindow fix ops.reverse k Iv now := by
   have sim := sim_runR fix t0 ops.reverse h0 hm
+  have hpos : 0 < now := lt_of_lt_of_le h0 (le_trans (t0_le_lastT t0 ops.reverse hm) hnow)
   unfold obsWindow ledWindow run
   cases k with
   | none =>
     simp only [nodeOf, Option.map]
-    rw [nodeOk_window sim.nodes.inb now Iv hnow (by simpa [sampleCountTotal, bucketLen] using hIv)]
+    rw [nodeOk_window sim.nodes.inb now Iv hnow hpos (by simpa [sampleCountTotal, bucketLen] using hIv)]
     rfl
   | some r =>
     simp only [nodeOf]
@@ -40,7 +41,7 @@ theorem window_refines_ledger (fix : Bool) (t0 : Nat) (ops : List TOp) (h0 : 0 <
     | some n =>
       have := sim.nodes.some_ r n hf
       simp only [Option.map, this.1, if_true]
-      rw [nodeOk_window this.2 now Iv hnow (by simpa [sampleCountTotal, bucketLen] using hIv)]
+      rw [nodeOk_window this.2 now Iv hnow hpos (by simpa [sampleCountTotal, bucketLen] using hIv)]
 
 /-- **the gauge** (`CurrentConcurrency()`) -/
 theorem conc_refines_ledger (fix : Bool) (t0 : Nat) (ops : List TOp) (h0 : 0 < t0) (hm : Mono t0 ops) (k : Key) :
@@ -73,6 +74,14 @@ theorem ctx_refines_ledger (fix : Bool) (t0 : Nat) (ops : List TOp) (h0 : 0 < t0
 theorem reclog_refines_ledger (fix : Bool) (t0 : Nat) (ops : List TOp) (h0 : 0 < t0) (hm : Mono t0 ops) :
     (run fix t0 ops).log = recLog fix ops.reverse :=
   (sim_runR fix t0 ops.reverse h0 hm).log
+
+/-- the verdict the drivers compute for the default chain is the same on both sides: the model reads the gauge of
+the node (0 if the node is about to be created), the spec reads the ledger's gauge -/
+theorem default_verdict_agrees (fix : Bool) (t0 : Nat) (ops : List TOp) (h0 : 0 < t0) (hm : Mono t0 ops)
+    (iso : Option Nat) (hot : Bool) (res : String) (batch : Nat) (args : List String) :
+    defaultRule iso hot ((obsConc (run fix t0 ops) (some res)).getD 0) batch args =
+    defaultRule iso hot ((ledConc fix ops.reverse (some res)).getD 0) batch args := by
+  rw [conc_refines_ledger fix t0 ops h0 hm]
 
 /-! ## (2) corollaries: what the ledger says, hence what the model does
 
@@ -123,7 +132,7 @@ theorem completion_payload (fix : Bool) (h : List TOp) (t id : Nat) (err : Optio
     contrib fix h (t, .exit id err) k =
       (if (orErr err i.err).isSome then [(t, evBucket .error i.e.batch)] else [])
         ++ [(t, evBucket .rt (t - i.t0)), (t, evBucket .complete i.e.batch)] := by
-  simp [contrib, hi, hd, hk]
+  simp [contrib, contribI, Op.addr, hi, hd, hk]
 
 /-- **`Exit` is idempotent and late calls change nothing**: any sequence of `trace` / `exit` (with or without
 error, at any times) addressed to ids that are already finished leaves the whole model state — every node, every
@@ -225,15 +234,17 @@ theorem panic_pass_gauge_witness :
 /-- the full-strength statement is false of the code as it is -/
 theorem accounting_statement_false : ¬ accounting_statement := by
   intro h
-  have := (h 1000 [(1000, .entry panicEntry), (1000, .exit 1 none)] (by decide) (by simp [Mono, MonoR, lastT]) (some "h") 1000 1000
+  have := (h 1000 [(1000, .entry panicEntry), (1000, .exit 1 none)] (by decide) (show MonoR 1000 [(1000, .exit 1 none), (1000, .entry panicEntry)] from ⟨by decide, by decide, trivial⟩)
+    (some "h") 1000 1000
     (by decide) (by decide)).2
   revert this
   decide
 
 /-! ## non-vacuity: the hypotheses are satisfiable, the region is not everything -/
 
-example : Mono 1000 [(1000, .entry panicEntry), (1500, .trace 1 (some "e")), (1500, .exit 1 none)] := by
-  simp [Mono, MonoR, lastT]
+example : Mono 1000 [(1000, .entry panicEntry), (1500, .trace 1 (some "e")), (1500, .exit 1 none)] :=
+  show MonoR 1000 [(1500, .exit 1 none), (1500, .trace 1 (some "e")), (1000, .entry panicEntry)] from
+    ⟨by decide, by decide, by decide, trivial⟩
 example : panicFree [(1000, Op.entry panicEntry)] none = true := by decide
 example : panicFree [(1000, Op.entry panicEntry)] (some "h") = false := by decide
 example : IsLate [(2, .exit 1 none), (1, .entry panicEntry)] (3, .exit 1 (some "late")) := ⟨_, rfl, rfl⟩
